@@ -1,5 +1,6 @@
 import Driver.Common
 import Dtn7.Model.Reports
+import Dtn7.Model.ReportsCbor
 import Dtn7.Gen.C15
 
 /-!
@@ -8,18 +9,21 @@ Driver for C15. Input lines (blank-separated `key=value` tokens after the op nam
   node id=<eid> agents=<eid,..> listeners=<eid,..> receivers=<eid,..>
        the node under test, as configured by the harness (what `Core.HasEndpoint` looks at)
 
-  sc n=<idx> entry=<recv|dup|submit|foreign> want=<name> flags=<n> frag=<-|off:total> src=<eid>
+  sc n=<idx> entry=<recv|dup|submit|foreign|retry> want=<name> flags=<n> frag=<-|off:total> src=<eid>
      ts=<time>:<seq> dst=<eid> rto=<eid> rcv=<eid> blocks=<-|f,f,..> self=<0|1> destlocal=<0|1>
      hop=<0|1> expired=<0|1> sends=<ok>:<failed> dlv=<n> stored=<0|1> t0=<ms> t1=<ms> undec=<n>
-     reports=<-|R;R;..> cascade=<n|-> [panic=<text>]
+     stray=<n> reports=<-|R;R;..> cascade=<n|-> [panic=<text>]
        one subject bundle driven through a real Core. Inputs: the subject's primary-block fields,
        the block flags of its unknown canonical blocks (array order), the descriptor's receiver,
        whether the report-to endpoint is one of the node's (`self`, by construction of the scenario).
        Observations: successful/failed `Send`s of the subject at the mock CLAs, deliveries to the
-       mock agent, whether the store still has it, and every administrative-record bundle that
-       reached a CLA or the agent, decoded:
+       mock agent, whether the store still has it, and every administrative-record bundle the core
+       announced to the routing algorithm (`NotifyNewBundle`: every report passes it whatever its
+       destination; `stray` counts administrative records seen at a CLA or the agent that were not
+       announced), decoded:
        R = flags,source,destination,report-to,lifetime,items,reason,ref-source,ref-time:ref-seq,
-           ref-frag,via        items = four of 0 | 1 | 1@<time> | 0@<time> joined by '/'
+           ref-frag,via,payload   items = four of 0 | 1 | 1@<time> | 0@<time> joined by '/';
+           payload = hex of the payload block's data (the serialised administrative record)
        cascade = number of NEW administrative records observed after feeding each of these reports
        back into three nodes (`-` = not exercised for this scenario).
 
@@ -91,24 +95,36 @@ def parseItem (s : String) : Option Item :=
     | none => none
   | _ => none
 
-def parseReport (s : String) : Option Report :=
+def parseReport (s : String) : Option (Report × Bytes) :=
   match splitChar ',' s with
-  | [fl, src, dst, rto, life, items, reason, rsrc, rts, rfrag, _via] =>
+  | [fl, src, dst, rto, life, items, reason, rsrc, rts, rfrag, _via, payload] =>
     match fl.toNat?, parseEid src, parseEid dst, parseEid rto, life.toNat?,
           (splitChar '/' items).mapM parseItem, reason.toNat?, parseEid rsrc, parsePair ':' rts,
-          parseFrag rfrag with
+          parseFrag rfrag, parseHex payload with
     | some fl, some src, some dst, some rto, some life, some items, some reason, some rsrc,
-      some (rt, rs), some rfrag =>
-      some { flags := fl, source := src, destination := dst, reportTo := rto, lifetime := life,
-             items := items, reason := reason, ref := ⟨rsrc, rt, rs, rfrag⟩ }
-    | _, _, _, _, _, _, _, _, _, _ => none
+      some (rt, rs), some rfrag, some payload =>
+      some ({ flags := fl, source := src, destination := dst, reportTo := rto, lifetime := life,
+              items := items, reason := reason, ref := ⟨rsrc, rt, rs, rfrag⟩ }, payload)
+    | _, _, _, _, _, _, _, _, _, _, _ => none
   | _ => none
 
-def parseReports (s : String) : Option (List Report) :=
+def parseReports (s : String) : Option (List (Report × Bytes)) :=
   if s == "-" then some [] else (splitChar ';' s).mapM parseReport
 
 def parseNats (s : String) : Option (List Nat) :=
   if s == "-" then some [] else (splitChar ',' s).mapM (·.toNat?)
+
+/-- The wire form of one observed report: the model's decoder must read the implementation's
+bytes as the record the implementation's own decoder reported, and the model's encoder must
+reproduce the bytes. -/
+def payloadProblem (r : Report) (payload : Bytes) : Option String :=
+  match decAdminRecord payload with
+  | .error e => some s!"payload-not-decodable-by-the-model err={repr e}"
+  | .ok (rec, rest) =>
+    if !rest.isEmpty then some "payload-trailing-bytes"
+    else if rec != r.record then some s!"payload-decodes-differently model={repr rec}"
+    else if encAdminRecord rec != payload then some "payload-bytes-differ-from-model-encoding"
+    else none
 
 /-- Replace every reported time by 0 (the model is run with one `now`; the harness bounds the real
 values by `t0 ≤ time ≤ t1`). -/
@@ -151,7 +167,8 @@ def handleSc (node : Node) (kv : List (String × String)) : String :=
         (get "sends").bind (parsePair ':'), (get "dlv").bind (·.toNat?),
         (get "reports").bind parseReports with
   | some entry, some flags, some frag, some src, some (t, sq), some dst, some rto, some rcv,
-    some blocks, some (okS, failS), some dlv, some goReports =>
+    some blocks, some (okS, failS), some dlv, some goReportsP =>
+    let goReports := goReportsP.map (·.1)
     let bit := fun k => (get k) == some "1"
     let t0 := ((get "t0").bind (·.toNat?)).getD 0
     let t1 := ((get "t1").bind (·.toNat?)).getD 0
@@ -164,6 +181,8 @@ def handleSc (node : Node) (kv : List (String × String)) : String :=
     | none =>
     if (get "undec") != some "0" then
       s!"specfail undecodable-administrative-record-emitted n={(get "undec").getD "?"}"
+    else if (get "stray").getD "0" != "0" then
+      s!"diff administrative-record-at-cla-or-agent-never-announced-to-routing n={(get "stray").getD "?"}"
     else if frag.isSome != s.isFragment then "skip frag-flag-mismatch"
     else
     -- the event log, from the observations
@@ -193,8 +212,15 @@ def handleSc (node : Node) (kv : List (String × String)) : String :=
           | some n => noCascadeFail n
           | none => none
     match specFail with
-    | some cls =>
-      if cls == "reported-delivered-did-not-happen" && codeCfg.reportOnlyOnSuccess then
+    | some cls0 =>
+      -- input class: the one situation in which the current code is known to report a delivery
+      -- that did not happen (D16) is "destination is an endpoint of the node, no agent took it"
+      let cls :=
+        if cls0 == "reported-delivered-did-not-happen" && bit "destlocal" && dlv == 0 then
+          cls0 ++ "-destination-local-no-agent"
+        else cls0
+      if cls == "reported-delivered-did-not-happen-destination-local-no-agent" &&
+          codeCfg.reportOnlyOnSuccess then
         s!"diff extracted-fact-says-delivery-report-only-on-success-but entry={entry} flags={flags}"
       else
         s!"specfail {cls} entry={entry} flags={flags} frag={(get "frag").getD "?"} rto={(get "rto").getD "?"} blocks={(get "blocks").getD "?"} events={repr evs} reports={goReports.map showReport}"
@@ -213,6 +239,7 @@ def handleSc (node : Node) (kv : List (String × String)) : String :=
       | "recv" => some (.receive d)
       | "dup" => some .receiveKnown
       | "submit" => some (.submit d)
+      | "retry" => some (.retry d)
       | "foreign" => some .submitForeign
       | _ => none
     match flow? with
@@ -231,6 +258,9 @@ def handleSc (node : Node) (kv : List (String × String)) : String :=
     else if !times.all (fun x => t0 ≤ x && x ≤ t1) then
       s!"diff report-time-outside-window t0={t0} t1={t1} times={times}"
     else
+    match goReportsP.filterMap (fun rp => payloadProblem rp.1 rp.2) with
+    | pp :: _ => s!"diff {pp} entry={entry} flags={flags}"
+    | [] =>
       -- the deleted/known bookkeeping the Spec's events rest on must agree with the model's events
       let mevs := flowEvents s flow
       let mdel := mevs.any isDeleted
@@ -243,6 +273,10 @@ def handleSc (node : Node) (kv : List (String × String)) : String :=
       | ps => s!"diff missing-report positions={ps} entry={entry} flags={flags}"
   | _, _, _, _, _, _, _, _, _, _, _, _ => "skip parse"
 
+/-- One verdict line per input line: `repr` breaks long values over several lines. -/
+def flat (s : String) : String :=
+  String.ofList (s.toList.map fun c => if c == '\n' || c == '\r' then ' ' else c)
+
 def handle (st : Option Node) (line : String) : Option Node × String :=
   match fields line with
   | "node" :: rest =>
@@ -254,7 +288,7 @@ def handle (st : Option Node) (line : String) : Option Node × String :=
     | _, _, _, _ => (st, "skip parse")
   | "sc" :: rest =>
     match st with
-    | some node => (st, handleSc node (parseKv rest))
+    | some node => (st, flat (handleSc node (parseKv rest)))
     | none => (st, "skip no-node-line")
   | _ => (st, "skip unknown-op")
 
